@@ -479,4 +479,56 @@ theorem mergeAll_closed_form (k : TripID) (ms : List TripData) (hk : ∀ m ∈ m
         rw [step, this]
         simp [ho]
 
+/-! ### all mentions of a message; messages without conflicting duplicates -/
+
+/-- all trip mentions of a (pre-processed) message, in feed order -/
+def allMentions (ext : Ext) (es : List (Entity × Bool)) : List TripData :=
+  (es.filter fun p => !p.2).flatMap fun p => tripMentions ext p.1
+
+/-- **without conflicting duplicates**: every trip has at most one entity of its own among its mentions -/
+def ConflictFreeTrips (ext : Ext) (es : List (Entity × Bool)) : Prop :=
+  ∀ k, AtMostOneOwn ((allMentions ext es).filter fun m => m.id == k)
+
+theorem mergeAll_perm (k : TripID) (ms ms' : List TripData) (hp : ms'.Perm ms) (hk : ∀ m ∈ ms, m.id = k)
+    (h1 : AtMostOneOwn ms) : mergeAll none ms' = mergeAll none ms := by
+  by_cases hne : ms = []
+  · subst hne
+    have : ms' = [] := List.Perm.eq_nil hp
+    rw [this]
+  · have hne' : ms' ≠ [] := by
+      intro e; rw [e] at hp; exact hne (List.Perm.eq_nil hp.symm)
+    have hk' : ∀ m ∈ ms', m.id = k := fun m hm => hk m (hp.subset hm)
+    have h1' : AtMostOneOwn ms' := by
+      unfold AtMostOneOwn at *
+      rw [(hp.filter _).length_eq]; exact h1
+    rw [mergeAll_closed_form k ms hk hne h1, mergeAll_closed_form k ms' hk' hne' h1',
+        find?_perm_of_atMostOne _ ms ms' hp h1]
+
+/-- the entry of the trip table under `k`: the merge of the mentions of `k`, in feed order -/
+theorem trips_lookup (ext : Ext) (es : List (Entity × Bool)) (k : TripID) :
+    alookup k (runEntities ext es).trips = mergeAll none ((allMentions ext es).filter fun m => m.id == k) := by
+  rw [runEntities_trips, foldl_addTrip_lookup]; rfl
+
+theorem mergeAll_isSome (cur : Option TripData) (ms : List TripData) (h : ms ≠ []) : (mergeAll cur ms).isSome := by
+  induction ms generalizing cur with
+  | nil => exact absurd rfl h
+  | cons m r ih =>
+    simp only [mergeAll, List.foldl_cons]
+    cases r with
+    | nil => simp
+    | cons x r' => exact ih _ (by simp)
+
+/-- what the table holds for a mentioned key of a conflict-free message -/
+theorem trips_lookup_cf (ext : Ext) (es : List (Entity × Bool)) (hcf : ConflictFreeTrips ext es) (k : TripID) :
+    alookup k (runEntities ext es).trips =
+      if ((allMentions ext es).filter fun m => m.id == k) = [] then none
+      else some (match ((allMentions ext es).filter fun m => m.id == k).find? (·.inMessage) with
+                 | some own => own
+                 | none => { id := k, inMessage := false }) := by
+  rw [trips_lookup]
+  split
+  · next h => rw [h]; rfl
+  · next h =>
+    exact mergeAll_closed_form k _ (fun m hm => by simpa using (List.mem_filter.mp hm).2) h (hcf k)
+
 end Gtfs.Rt
